@@ -64,6 +64,20 @@ type MemoryInstance struct {
 	ownerModuleEngine ModuleEngine
 
 	expBuffer experimental.LinearMemory
+
+	// importers counts the instances that import this memory and have not released it yet. The defining instance
+	// is not counted.
+	importers atomic.Int32
+}
+
+// release is called once by each instance that defines or imports this memory when that instance is closed: a buffer
+// obtained from an experimental.MemoryAllocator is freed by the last of them, because an importer (or the exporter)
+// that is still open keeps using it.
+func (m *MemoryInstance) release() {
+	if m.importers.Add(-1) < 0 && m.expBuffer != nil {
+		m.expBuffer.Free()
+		m.expBuffer = nil
+	}
 }
 
 // NewMemoryInstance creates a new instance based on the parameters in the SectionIDMemory.
